@@ -2,7 +2,7 @@
 (***************************************************************************)
 (* C10 (paste sites): one macro body from a menu of directive groups is    *)
 (* pasted at 1..3 sites of a document (root, under two different URLs,     *)
-(* under a method of each).  A paste makes a NEW copy of the body at the   *)
+(* under a method of each, twice in a row under one method).  A paste makes a NEW copy of the body at the   *)
 (* site, so every group that is legal once at each site is legal at all of *)
 (* them together: nothing may be keyed by where the body was written.      *)
 (* Same invariants and same emission as MC_C10 (documents too long for its *)
@@ -31,8 +31,10 @@ SiteMenu ==
    urlA |-> << D("URL", <<"pai">>, FALSE, "", ""), Paste >>,
    urlC |-> << D("URL", <<"pci">>, FALSE, "", ""), Paste >>,
    getA |-> << D("URL", <<"pai">>, FALSE, "", ""), D("PUT", <<>>, FALSE, "", ""), Paste >>,
-   getC |-> << D("URL", <<"pci">>, FALSE, "", ""), D("PUT", <<>>, FALSE, "", ""), Paste >>]
-SiteOrder == << "root", "urlA", "urlC", "getA", "getC" >>
+   getC |-> << D("URL", <<"pci">>, FALSE, "", ""), D("PUT", <<>>, FALSE, "", ""), Paste >>,
+   \* twice in a row under one method: two expansions of one macro are two copies, also when they are neighbours
+   twice |-> << D("URL", <<"pf">>, FALSE, "", ""), D("POST", <<>>, FALSE, "", ""), Paste, Paste >>]
+SiteOrder == << "root", "urlA", "urlC", "getA", "getC", "twice" >>
 
 VARIABLES body, sites
 vars == <<body, sites>>
